@@ -1,6 +1,7 @@
 // C01 — generated validators accept exactly the values of the declared TypeScript type.
 // Events: (program, parser, value, impl = Parsers.P.validate(v) | threw). Oracle: ref/member.
 import { corpus, valuesFor, typeKey, kindsHistogram, h8 } from "../lib/corpus.mjs";
+import { isCyclic } from "../lib/deep.mjs";
 import { localise, localiseSource, makeValidateJudge, coreProgramText, shallow } from "../lib/localise.mjs";
 import { toEjson, fromEjson, valueClass, show } from "../lib/ejson.mjs";
 import { loadModule, buildAll, ALL_SETTINGS } from "../lib/loader.mjs";
@@ -106,6 +107,11 @@ export async function run(ctx) {
         }
         if (r === "U") {
           ctx.inconclusive("reference-unspecified");
+          continue;
+        }
+        // a cyclic input against a recursive type ends in RangeError: C03's recorded finding
+        if (isCyclic(v)) {
+          ctx.inconclusive("cyclic-input(C03)");
           continue;
         }
         const impl = implOf(parser, v);
